@@ -19,36 +19,88 @@ import (
 	"github.com/kubewharf/kubegateway/pkg/flowcontrols"
 	"github.com/kubewharf/kubegateway/pkg/flowcontrols/flowcontrol"
 	"github.com/kubewharf/kubegateway/pkg/ratelimiter/clientsets"
+	limitutil "github.com/kubewharf/kubegateway/pkg/ratelimiter/util"
 
+	"verifharness/bed"
 	"verifharness/vkit"
 )
 
 // ---------------------------------------------------------------------------------------------------------------------
-// (D) the REAL clientsets.ClientSets (endpoint sync every 2 s, heartbeat every 1 s, 5 s hysteresis before
-// "not ready") against a stub limiter HTTP server, and the real 2 s reconcile ticker. One outage and one recovery per
-// gateway. Every step waits for an observed event (generous watchdog = inconclusive); every probe is judged by the
-// readiness the client set reported immediately before AND after it (readiness only changes on heartbeat ticks).
+// (D) the REAL clientsets.ClientSets (endpoint sync every 2 s, heartbeat every 1 s, 5 s hysteresis before "not ready")
+// against a sharded stub limiter service: two shards, each with its own leader (an HTTP server); one real client set (as
+// in a gateway process) serves two real UpstreamLimiters, one per upstream cluster, the cluster names chosen so that one
+// hashes to each shard (util.GetShardID). Real 2 s reconcile ticker. Per case: the leader of ONE shard goes down
+// (heartbeats and allocate calls answered 500) for longer than the hysteresis while the other stays healthy, then it
+// recovers with a different quota.
+//
+// Every probe of an upstream is judged by the readiness the client set reported for THAT upstream immediately before AND
+// after the probe (readiness only changes on heartbeat ticks):
+//   not ready -> effective limit = local; ready -> effective limit in {local, a quota the server granted}; always <= global.
+// Waiting for an event (first quota, "not ready", recovered quota) has a generous watchdog = inconclusive, with one
+// exception that is an observation, not a timeout: the stub logs every heartbeat it receives; if the dead leader has
+// answered >= 10 consecutive heartbeats with an error over >= 8 s (twice what the hysteresis needs) and the client set
+// still reports the upstream of that shard ready, before and after a probe that finds a limit other than the local one,
+// the instance is not enforcing the local limit while its limiter server is down.
 // ---------------------------------------------------------------------------------------------------------------------
 
-type stubLimiterServer struct {
-	srv     *httptest.Server
-	healthy int32
-	quota   int32
-	cfg     schemaCfg
-	mu      sync.Mutex
-	hb      int64
-	alloc   int64
+type hbRec struct {
+	at int64
+	ok bool
 }
 
-func newStubLimiterServer(cfg schemaCfg, quota int32) *stubLimiterServer {
-	s := &stubLimiterServer{cfg: cfg, healthy: 1, quota: quota}
-	s.srv = httptest.NewServer(http.HandlerFunc(s.serve))
+type leaderStub struct {
+	shard   int
+	srv     *httptest.Server
+	healthy int32
+	mu      sync.Mutex
+	hb      []hbRec
+	svc     *shardedLimiter
+}
+
+type shardedLimiter struct {
+	leaders   []*leaderStub
+	mu        sync.Mutex
+	quota     map[string]int32     // upstream cluster -> quota an allocate call is answered with
+	cfg       map[string]schemaCfg // upstream cluster -> schema
+	misrouted int64                // allocate calls that reached the leader of another shard
+}
+
+func newShardedLimiter(n int) *shardedLimiter {
+	s := &shardedLimiter{quota: map[string]int32{}, cfg: map[string]schemaCfg{}}
+	for i := 0; i < n; i++ {
+		l := &leaderStub{shard: i, healthy: 1, svc: s}
+		l.srv = httptest.NewServer(http.HandlerFunc(l.serve))
+		s.leaders = append(s.leaders, l)
+	}
 	return s
 }
 
-func (s *stubLimiterServer) serve(w http.ResponseWriter, req *http.Request) {
+func (s *shardedLimiter) close() {
+	for _, l := range s.leaders {
+		l.srv.Close()
+	}
+}
+
+func (s *shardedLimiter) setQuota(upstream string, q int32) {
+	s.mu.Lock()
+	s.quota[upstream] = q
+	s.mu.Unlock()
+}
+
+// failedStreak returns the number of consecutive failed heartbeats at the end of the log and the time of the first of them.
+func (l *leaderStub) failedStreak() (n int, since int64) {
+	l.mu.Lock()
+	defer l.mu.Unlock()
+	for i := len(l.hb) - 1; i >= 0 && !l.hb[i].ok; i-- {
+		n++
+		since = l.hb[i].at
+	}
+	return
+}
+
+func (l *leaderStub) serve(w http.ResponseWriter, req *http.Request) {
 	body, _ := io.ReadAll(req.Body)
-	ok := atomic.LoadInt32(&s.healthy) != 0
+	ok := atomic.LoadInt32(&l.healthy) != 0
 	writeJSON := func(code int, v interface{}) {
 		w.Header().Set("Content-Type", "application/json")
 		w.WriteHeader(code)
@@ -59,11 +111,16 @@ func (s *stubLimiterServer) serve(w http.ResponseWriter, req *http.Request) {
 	}
 	switch {
 	case req.URL.Path == clientsets.ServerInfoUrl:
-		// endpoint discovery keeps working (it is a different server in production: any member of the service)
-		writeJSON(200, &proxyv1alpha1.RateLimitServerInfo{Server: s.srv.URL, ID: "limiter-0", ShardCount: 1, ManagedShards: []int32{0},
-			Endpoints: []proxyv1alpha1.EndpointInfo{{Leader: s.srv.URL, ShardID: 0}}})
+		// endpoint discovery keeps working (any member of the service answers it, the leader table does not change)
+		info := &proxyv1alpha1.RateLimitServerInfo{Server: l.srv.URL, ID: fmt.Sprintf("limiter-%d", l.shard), ShardCount: int32(len(l.svc.leaders)), ManagedShards: []int32{int32(l.shard)}}
+		for _, x := range l.svc.leaders {
+			info.Endpoints = append(info.Endpoints, proxyv1alpha1.EndpointInfo{Leader: x.srv.URL, ShardID: int32(x.shard)})
+		}
+		writeJSON(200, info)
 	case req.URL.Path == clientsets.HeartBeatUrl:
-		atomic.AddInt64(&s.hb, 1)
+		l.mu.Lock()
+		l.hb = append(l.hb, hbRec{at: bed.Now(), ok: ok})
+		l.mu.Unlock()
 		if !ok {
 			fail()
 			return
@@ -71,14 +128,20 @@ func (s *stubLimiterServer) serve(w http.ResponseWriter, req *http.Request) {
 		w.WriteHeader(200)
 		_, _ = w.Write([]byte("ok"))
 	case strings.HasSuffix(req.URL.Path, "/status") && req.Method == http.MethodPut:
-		atomic.AddInt64(&s.alloc, 1)
 		if !ok {
 			fail()
 			return
 		}
 		in := &proxyv1alpha1.RateLimitCondition{}
 		_ = json.Unmarshal(body, in)
-		out := allocReply(in, allocItem(s.cfg, atomic.LoadInt32(&s.quota), 0))
+		up := in.Spec.UpstreamCluster
+		if limitutil.GetShardID(up, len(l.svc.leaders)) != l.shard {
+			atomic.AddInt64(&l.svc.misrouted, 1)
+		}
+		l.svc.mu.Lock()
+		q, cfg := l.svc.quota[up], l.svc.cfg[up]
+		l.svc.mu.Unlock()
+		out := allocReply(in, allocItem(cfg, q, 0))
 		out.TypeMeta = metav1.TypeMeta{Kind: "RateLimitCondition", APIVersion: proxyv1alpha1.SchemeGroupVersion.String()}
 		writeJSON(200, out)
 	default:
@@ -92,68 +155,116 @@ func heartbeatPhase(r *vkit.R) {
 	base := r.Rng.Fork("heartbeat")
 	for i := 0; i < n; i++ {
 		g := base.Sub(i)
+		dead := i % 2 // which shard's leader goes down: both directions in every run
 		wg.Add(1)
 		go func() {
 			defer wg.Done()
-			runHeartbeatCase(r, g)
+			runHeartbeatCase(r, g, dead)
 		}()
 	}
 	wg.Wait()
 }
 
-func runHeartbeatCase(r *vkit.R, g *vkit.Rand) {
-	G := int32(g.Range(8, 30))
-	L := int32(g.Range(1, int(G)-3))
-	cfg := schemaCfg{Strategy: string(proxyv1alpha1.GlobalAllocateLimit), Type: "maxinflight", L: L, G: G}
-	pick := func(not ...int32) int32 {
-		for {
-			q := int32(g.Range(1, int(G)))
-			okq := q != L
-			for _, x := range not {
-				if q == x {
-					okq = false
-				}
-			}
-			if okq {
-				return q
-			}
-		}
-	}
-	q0 := pick()
-	q2 := pick(q0)
-	srv := newStubLimiterServer(cfg, q0)
-	defer srv.srv.Close()
+// hbUpstream is one upstream cluster of the gateway: its own real UpstreamLimiter over the shared real client set.
+type hbUpstream struct {
+	name    string
+	shard   int
+	cfg     schemaCfg
+	q0, q2  int32
+	lim     flowcontrols.UpstreamLimiter
+	granted map[int]bool
+}
+
+type hbObs struct {
+	Phase       string `json:"phase"`
+	Upstream    string `json:"upstream"`
+	Shard       int    `json:"shard"`
+	ReadyBefore bool   `json:"readyBefore"`
+	ReadyAfter  bool   `json:"readyAfter"`
+	E           int    `json:"effective"`
+	LeaderUp    bool   `json:"leaderHealthy"`
+}
+
+func runHeartbeatCase(r *vkit.R, g *vkit.Rand, dead int) {
+	const shards = 2
+	svc := newShardedLimiter(shards)
+	defer svc.close()
 
 	ctx, cancel := context.WithCancel(context.Background())
 	defer cancel()
-	cs := clientsets.NewClientSetsWithRestConfig(ctx, srv.srv.URL, "c09", &rest.Config{Host: srv.srv.URL})
-	lim := flowcontrols.NewUpstreamLimiter(ctx, clusterName, "", cs)
-	lim.Sync(proxyv1alpha1.FlowControl{Schemas: []proxyv1alpha1.FlowControlSchema{cfg.schema()}})
-	lim.ResetLimiter(flowcontrol.RemoteFlowControls)
+	// the service address lists every member; ONE client set per gateway process
+	var addrs []string
+	for _, l := range svc.leaders {
+		addrs = append(addrs, l.srv.URL)
+	}
+	cs := clientsets.NewClientSetsWithRestConfig(ctx, strings.Join(addrs, ","), "c09", &rest.Config{Host: addrs[0]})
+
+	// one upstream cluster per shard
+	ups := make([]*hbUpstream, shards)
+	salt := g.Intn(1 << 20)
+	for i := 0; ; i++ {
+		name := fmt.Sprintf("c09-%d-%d.example", salt, i)
+		sh := limitutil.GetShardID(name, shards)
+		if ups[sh] == nil {
+			G := int32(g.Range(8, 30))
+			L := int32(g.Range(1, int(G)-3))
+			u := &hbUpstream{name: name, shard: sh, cfg: schemaCfg{Strategy: string(proxyv1alpha1.GlobalAllocateLimit), Type: "maxinflight", L: L, G: G}}
+			pick := func(not ...int32) int32 {
+				for {
+					q := int32(g.Range(1, int(G)))
+					okq := q != L
+					for _, x := range not {
+						okq = okq && q != x
+					}
+					if okq {
+						return q
+					}
+				}
+			}
+			u.q0 = pick()
+			u.q2 = pick(u.q0)
+			u.granted = map[int]bool{int(u.q0): true}
+			ups[sh] = u
+		}
+		if ups[0] != nil && ups[1] != nil {
+			break
+		}
+	}
+	for _, u := range ups {
+		svc.mu.Lock()
+		svc.cfg[u.name], svc.quota[u.name] = u.cfg, u.q0
+		svc.mu.Unlock()
+		u.lim = flowcontrols.NewUpstreamLimiter(ctx, u.name, "", cs)
+		u.lim.Sync(proxyv1alpha1.FlowControl{Schemas: []proxyv1alpha1.FlowControlSchema{u.cfg.schema()}})
+		u.lim.ResetLimiter(flowcontrol.RemoteFlowControls)
+	}
 	defer func() {
-		flowcontrols.VerifStop(lim)
-		for _, c := range lim.AllFlowControls() {
-			c.Stop()
+		for _, u := range ups {
+			flowcontrols.VerifStop(u.lim)
+			for _, c := range u.lim.AllFlowControls() {
+				c.Stop()
+			}
 		}
 	}()
 
-	type obs struct {
-		Phase         string `json:"phase"`
-		ReadyBefore   bool   `json:"readyBefore"`
-		ReadyAfter    bool   `json:"readyAfter"`
-		E             int    `json:"effective"`
-		ServerHealthy bool   `json:"serverHealthy"`
-	}
-	var trace []obs
-	granted := map[int]bool{int(q0): true} // quotas the server has been configured to grant so far
+	var trace []hbObs
+	lastObs := map[string]hbObs{}
 	violated := false
-	probe := func(phase string) obs {
-		o := obs{Phase: phase, ServerHealthy: atomic.LoadInt32(&srv.healthy) != 0}
-		o.ReadyBefore = cs.IsReady(clusterName)
-		fc := lim.GetOrDefault(schemaName)
+	witness := func() interface{} {
+		w := map[string]interface{}{"deadShard": dead, "trace": trace}
+		for _, u := range ups {
+			w[fmt.Sprintf("shard%d", u.shard)] = map[string]interface{}{"upstream": u.name, "schema": u.cfg, "quotaBefore": u.q0, "quotaAfterRecovery": u.q2}
+		}
+		return w
+	}
+	probe := func(phase string, u *hbUpstream) hbObs {
+		leader := svc.leaders[u.shard]
+		o := hbObs{Phase: phase, Upstream: u.name, Shard: u.shard, LeaderUp: atomic.LoadInt32(&leader.healthy) != 0}
+		o.ReadyBefore = cs.IsReady(u.name)
+		fc := u.lim.GetOrDefault(schemaName)
 		n := 0
 		if p := vkit.Safely(func() {
-			for n < int(G)+5 && fc.TryAcquire() {
+			for n < int(u.cfg.G)+5 && fc.TryAcquire() {
 				n++
 			}
 			for i := 0; i < n; i++ {
@@ -164,79 +275,117 @@ func runHeartbeatCase(r *vkit.R, g *vkit.Rand) {
 			o.E = -1
 			return o
 		}
-		o.ReadyAfter = cs.IsReady(clusterName)
+		o.ReadyAfter = cs.IsReady(u.name)
 		o.E = n
-		if len(trace) == 0 || trace[len(trace)-1] != o {
-			trace = append(trace, o)
+		if last, seen := lastObs[u.name]; !seen || last != o {
+			trace = append(trace, o) // the witness keeps changes only
+			lastObs[u.name] = o
 		}
 		r.Count("hb_probes", 1)
 		if violated {
 			return o
 		}
-		witness := func() interface{} { return map[string]interface{}{"schema": cfg, "q0": q0, "q2": q2, "trace": trace} }
+		L, G := u.cfg.L, u.cfg.G
 		switch {
 		case n > int(G):
 			violated = true
-			r.Violation("C09/allocate-maxinflight/exceeds-global/real-heartbeat", fmt.Sprintf("max-in-flight local=%d global=%d, real client set: %d admitted at once in phase %s", L, G, n, phase), witness())
+			r.Violation("C09/allocate-maxinflight/exceeds-global/real-heartbeat", fmt.Sprintf("max-in-flight local=%d global=%d, real client set: %d admitted at once for upstream %s in phase %s", L, G, n, u.name, phase), witness())
 		case !o.ReadyBefore && !o.ReadyAfter:
 			r.Count("hb_probes_not_ready", 1)
 			if n != int(L) {
 				violated = true
 				r.Violation("C09/allocate-maxinflight/fallback-not-local/not-ready",
-					fmt.Sprintf("max-in-flight local=%d global=%d, real client set (heartbeat hysteresis): the client set reports not ready before and after the probe but the effective limit is %d (phase %s)", L, G, n, phase), witness())
+					fmt.Sprintf("max-in-flight local=%d global=%d, real client set (heartbeat hysteresis): the client set reports upstream %s (shard %d) not ready before and after the probe but the effective limit is %d (phase %s)", L, G, u.name, u.shard, n, phase), witness())
 			}
 		case o.ReadyBefore && o.ReadyAfter:
 			r.Count("hb_probes_ready", 1)
-			if n != int(L) && !granted[n] {
+			if n != int(L) && !u.granted[n] {
 				violated = true
 				r.Violation("C09/allocate-maxinflight/fallback-not-local/failing-after-sync",
-					fmt.Sprintf("max-in-flight local=%d global=%d, real client set: effective limit %d is neither the local limit nor a quota the server ever granted (%d, %d) (phase %s)", L, G, n, q0, q2, phase), witness())
+					fmt.Sprintf("max-in-flight local=%d global=%d, real client set: effective limit %d of upstream %s is neither the local limit nor a quota the server ever granted (%d, %d) (phase %s)", L, G, n, u.name, u.q0, u.q2, phase), witness())
+				break
+			}
+			// the observation that is not a timeout: the leader of this upstream's shard has failed >= 10 heartbeats in a
+			// row over >= 8 s (the hysteresis is 5 s, heartbeats come every second) and the upstream is still "ready"
+			// and still not on its local limit
+			if streak, since := leader.failedStreak(); !o.LeaderUp && streak >= 10 && bed.Now()-since >= int64(8*time.Second) && n != int(L) {
+				violated = true
+				r.Violation("C09/allocate-maxinflight/fallback-not-local/dead-shard-leader-still-ready",
+					fmt.Sprintf("max-in-flight local=%d global=%d, real client set, %d limiter shards: the leader of shard %d has answered the last %d heartbeats in a row with an error, for %.1fs, while the leader of the other shard is healthy; the client set still reports upstream %s (shard %d) ready before and after the probe and the instance still enforces the stale quota %d instead of the local limit",
+						L, G, shards, u.shard, streak, float64(bed.Now()-since)/1e9, u.name, u.shard, n), witness())
 			}
 		}
 		return o
 	}
-	waitFor := func(phase string, d time.Duration, cond func(o obs) bool) bool {
+	// waitFor probes BOTH upstreams every 50 ms until cond holds for the observations of this round
+	waitFor := func(phase string, d time.Duration, cond func(o []hbObs) bool) bool {
 		deadline := time.Now().Add(d)
-		for time.Now().Before(deadline) {
-			if cond(probe(phase)) {
+		for time.Now().Before(deadline) && !violated {
+			o := []hbObs{probe(phase, ups[0]), probe(phase, ups[1])}
+			if !violated && cond(o) {
 				return true
 			}
 			time.Sleep(50 * time.Millisecond)
 		}
 		return false
 	}
+	readyWith := func(o hbObs, q int32) bool { return o.ReadyBefore && o.ReadyAfter && o.E == int(q) }
+	notReady := func(o hbObs) bool { return !o.ReadyBefore && !o.ReadyAfter }
 
 	r.Eval(1)
-	r.Distinct(vkit.Hash64(fmt.Sprintf("hb|%+v|%d|%d", cfg, q0, q2)))
-	// 1. discovery + first heartbeat + first allocate round trip
-	if !waitFor("startup", 40*time.Second, func(o obs) bool { return o.ReadyBefore && o.ReadyAfter && o.E == int(q0) }) {
+	r.Distinct(vkit.Hash64(fmt.Sprintf("hb|%d|%+v|%+v|%d|%d|%d|%d", dead, ups[0].cfg, ups[1].cfg, ups[0].q0, ups[1].q0, ups[0].q2, ups[1].q2)))
+	D, S := ups[dead], ups[1-dead] // the upstream whose shard leader dies, and the one whose leader survives
+	// 1. discovery + first heartbeats + first allocate round trips
+	if !waitFor("startup", 40*time.Second, func(o []hbObs) bool { return readyWith(o[0], ups[0].q0) && readyWith(o[1], ups[1].q0) }) {
 		if !violated {
-			r.Inconclusive("real client set: the first granted quota was not observed within 40 s")
+			r.Inconclusive("real client set: the first granted quotas were not observed within 40 s")
 		}
 		return
 	}
-	// 2. outage: heartbeats and allocate calls fail; ready must hold for the hysteresis, then drop
-	atomic.StoreInt32(&srv.healthy, 0)
-	if !waitFor("outage", 60*time.Second, func(o obs) bool { return !o.ReadyBefore && !o.ReadyAfter }) {
+	// 2. the leader of one shard goes down; the other one stays healthy
+	atomic.StoreInt32(&svc.leaders[dead].healthy, 0)
+	survivorLostReady := false
+	if !waitFor("outage", 60*time.Second, func(o []hbObs) bool {
+		if notReady(o[S.shard]) {
+			survivorLostReady = true
+		}
+		return notReady(o[D.shard])
+	}) {
 		if !violated {
-			r.Inconclusive("real client set: never reported not ready within 60 s of failing heartbeats")
+			r.Inconclusive("real client set: never reported the upstream of the dead shard not ready within 60 s of failing heartbeats")
 		}
 		return
 	}
 	r.Count("hb_outages_reached_not_ready", 1)
-	waitFor("outage-not-ready", 1500*time.Millisecond, func(o obs) bool { return false })
+	waitFor("outage-not-ready", 1500*time.Millisecond, func(o []hbObs) bool {
+		if notReady(o[S.shard]) {
+			survivorLostReady = true
+		}
+		return false
+	})
+	if violated {
+		return
+	}
+	// the upstream of the healthy shard keeps its quota (it may only ever be on {local, quota}; here: still the quota)
+	if o := probe("outage-survivor", S); readyWith(o, S.q0) {
+		r.Count("hb_survivor_kept_quota", 1)
+	}
+	if survivorLostReady {
+		r.Count("hb_survivor_reported_not_ready_observed", 1) // not demanded by the statement; written down
+	}
 	// 3. recovery with a different quota
-	atomic.StoreInt32(&srv.quota, q2)
-	granted[int(q2)] = true
-	atomic.StoreInt32(&srv.healthy, 1)
-	if !waitFor("recovery", 60*time.Second, func(o obs) bool { return o.ReadyBefore && o.ReadyAfter && o.E == int(q2) }) {
+	svc.setQuota(D.name, D.q2)
+	D.granted[int(D.q2)] = true
+	atomic.StoreInt32(&svc.leaders[dead].healthy, 1)
+	if !waitFor("recovery", 60*time.Second, func(o []hbObs) bool { return readyWith(o[D.shard], D.q2) }) {
 		if !violated {
 			r.Inconclusive("real client set: the quota granted after recovery was not observed within 60 s")
 		}
 		return
 	}
 	r.Count("hb_recoveries_observed", 1)
+	r.Count("hb_allocate_calls_misrouted", int(atomic.LoadInt64(&svc.misrouted)))
 	if r.WantSample() {
-		r.Sample(map[string]interface{}{"kind": "real-heartbeat-case", "schema": cfg, "q0": q0, "q2": q2, "trace": trace})
+		r.Sample(map[string]interface{}{"kind": "real-heartbeat-case", "case": witness()})
 	}
 }
